@@ -22,7 +22,7 @@ Cur == Trace[l]
 Adv == l' = l + 1
 Stay == l' = l
 
-Blank == [msend |-> 0, mrecv |-> 0, hrecv |-> 0, hsend |-> 0, hdrain |-> FALSE, hret |-> "ok", watch |-> TRUE]
+Blank == [msend |-> 0, mrecv |-> 0, hrecv |-> 0, hsend |-> 0, hdrain |-> FALSE, hret |-> "ok", watch |-> TRUE, hflood |-> FALSE]
 TraceInit == InitWith(Blank) /\ l = 1
 TReset == Ev("reset") /\ Adv /\ ResetTo(Cur.sc)
 
